@@ -387,8 +387,19 @@ def execStatus (status : Nat) : Int :=
 (ENOENT, EACCES, ENOTDIR, ENOEXEC, ...), the child exits with this status, which the parent maps to -1. -/
 def execvpFailedStatus : Nat := Gen.execChildExit
 
-/-- `exec(argv, fdin)`: `> 0` exited non-zero / signalled, `0` success, `< 0` fatal. -/
-def execP (fdin : Option Handle) : Prog Int := do
+/-- The variable `fdin` of `exec()` at the `fork`: the descriptor handed in, else the `/dev/null` the function has
+just opened (`fdin = open("/dev/null", ...)`).  (`none, none` does not occur: without a descriptor handed in `exec()`
+reaches the `fork` only after a successful `open`.) -/
+def childStdin (fdin devnull : Option Handle) : Handle :=
+  match fdin, devnull with
+  | some fd, _ => fd
+  | none, some h => h
+  | none, none => 0
+
+/-- `exec(argv, fdin)`: `> 0` exited non-zero / signalled, `0` success, `< 0` fatal.  The call `fork argv s` carries
+what the child does between `fork` and `execvp`: `dup2(s, 0)` with `s` = the value of the variable `fdin` at that
+point, then `execvp(argv[0], argv)` with the vector `exec()` was handed - the same vector, no shell in between. -/
+def execP (argv : List Bytes) (fdin : Option Handle) : Prog Int := do
   let dn ← (match fdin with
     | some _ => pure (some none)
     | none => do
@@ -399,7 +410,7 @@ def execP (fdin : Option Handle) : Prog Int := do
   match dn with
   | none => pure (-1)
   | some devnull =>
-    let r ← call .fork
+    let r ← call (.fork argv (childStdin fdin devnull))
     let res ← (match r with
       | .ok _ => do
         let w ← call .waitpid
@@ -467,7 +478,7 @@ def execOne (env : PEnv) (mh : Match) (st : ExecSt) : Prog (ExecSt × Bool) :=
     match fdr with
     | none => pure (st, true)
     | some fd =>
-      let rc ← execP fd
+      let rc ← execP mh.argv fd
       match fd with
       | some h => let _ ← call (.close h)
       | none => pure ()
